@@ -538,3 +538,49 @@ def r13_8(cx):
         if len(r.conds) != 1:
             why = why or 'construction depends on more than the start-state probe'
     cx.report('R13.8', f, 'finditer-new', why is None, 'FindIter::new keeps (aut, input) and starts with last_match_end = None, depending only on the start-state probe' if why is None else why)
+
+
+# ------------------------------------------------------------------------------------------------- helpers shared with older rules
+def setter_keeps_other_end(cx, nm):
+    """Input::set_start / set_end on its summary: set_span(Span { that end: the argument, the other end: the current one })"""
+    keep, other = ('end', 'start') if nm == 'set_start' else ('start', 'end')
+    f = cx.body("util::search::Input::<'h>::%s" % nm)
+    frows = [r for r in summarize(cx.facts, f) if r.end == 'return']
+    P = cstr(param_at(f, 2))
+    if len(frows) != 1:
+        return False
+    cs = [canon(c) for c in frows[0].calls(r'util::search::Input::set_span$')]
+    return (len(cs) == 1 and cstr(cs[0][2][0]) == 'self' and is_agg(cs[0][2][1], r'util::search::Span$') and isinstance(cs[0][2][1][3], dict) and cstr(cs[0][2][1][3][other]) == P
+            and cstr(cs[0][2][1][3][keep]) in ('self.span.%s' % keep, 'util::search::Input::get_span(self).%s' % keep, 'util::search::Input::%s(self)' % keep))
+
+
+def builder_sets_only(cx, path, field, setter_pat):
+    """a by-value builder method `fn f(mut self, v) -> Self` changes exactly one field: either { self.set_f(v); self } or the
+    literal Self { f: v, ..self }. Returns None or what deviates."""
+    b = cx.body(path)
+    rows = [r for r in summarize(cx.facts, b) if r.end == 'return']
+    P = cstr(param_at(b, 2))
+    if len(rows) != 1 or rows[0].conds:
+        return 'not straight-line code'
+    r = rows[0]
+    ret = r.ret
+    while ret is not None and ret[0] == 'upd':
+        ret = ret[1]
+    if ret is not None and ret[0] == 'agg' and isinstance(ret[3], dict):
+        adt = cx.facts.adts.get(ret[1])
+        for f0, v0 in ret[3].items():
+            want = P if f0 == field else 'self.%s' % f0
+            if cstr(canon(v0)) != want:
+                return 'the value built has %s = %s (expected %s)' % (f0, cstr(canon(v0))[:60], want)
+        if field not in ret[3]:
+            return 'the value built does not set %s' % field
+        return None
+    cs = [canon(c) for c in r.calls(setter_pat)]
+    sts = [(cstr(canon(pl)), cstr(canon(v))) for pl, v in r.stores()]
+    if cstr(canon(ret)) != 'self':
+        return 'returns %s' % cstr(canon(ret))[:80]
+    if len(cs) == 1 and cstr(cs[0][2][0]) == 'self' and cstr(cs[0][2][1]) == P and not sts:
+        return None
+    if not cs and sts == [('self.%s' % field, P)]:
+        return None
+    return 'does %s / stores %s' % ([cstr(c)[:60] for c in cs], sts)
